@@ -143,7 +143,18 @@ def run(ctx: Ctx):
     return "other", ("Mixed: sentinel (infinity) and accumulation-dtype obligations on the real kernels; fidelity of the whole call is a bounded stand-in; floating-point accuracy is not decidable in this family. " + note)
 
 
+def _case_of(payload):
+    if "case" in payload:
+        return payload["case"]
+    m = payload.get("model")
+    return m.get("case") if isinstance(m, dict) else None
+
+
 def replay(payload):
+    if _case_of(payload) is None:
+        print("REPLAY: obligation", payload.get("obligation"), "-", payload.get("formula"), "| solver:", str(payload.get("solver_output"))[:500])
+        return 1
+    payload = {**payload, "case": _case_of(payload)}
     case = payload["case"]
     r = check(case) if case["func"] not in ("var", "std", "nanvar", "nanstd") or not case.get("finalize_kwargs") else check_var(case)
     print("REPLAY:", "contract holds" if r is None else r["why"])
